@@ -794,14 +794,14 @@ fn judge(case: &Case, tgt: Tgt, pipe: Option<&XPipe>, out: &rssl::CompiledPipeli
                     if !desc_of_input_kind(&r.kind).contains(&desc.as_str()) {
                         fails.push(Fail { class: "type-mismatch", detail: format!("`{}` declared as {} but reported as {}", b.name, r.kind, desc) });
                     }
-                    let want = match r.arr {
+                    let want = match r.eff_arr() {
                         ArrLen::No => Some(Some(1)),
                         ArrLen::Sized(n) => Some(Some(n)),
                         ArrLen::Unsized => Some(None),
                         ArrLen::Nested(..) => None,
                     };
                     if want.is_some_and(|w| b.descriptor_count != w) {
-                        fails.push(Fail { class: "count-mismatch", detail: format!("`{}` declared with {:?} but descriptor_count {:?}", b.name, r.arr, b.descriptor_count) });
+                        fails.push(Fail { class: "count-mismatch", detail: format!("`{}` declared with {:?} but descriptor_count {:?}", b.name, r.eff_arr(), b.descriptor_count) });
                     }
                 }
             }
@@ -863,7 +863,7 @@ fn judge(case: &Case, tgt: Tgt, pipe: Option<&XPipe>, out: &rssl::CompiledPipeli
             if shared_names.contains(r.name.as_str()) || case.res.iter().any(|o| o.name.starts_with(&prefix)) {
                 continue; // not attributable by name
             }
-            let bindable = !r.ss && !r.stat && r.kind != "struct" && matches!(r.arr, ArrLen::No | ArrLen::Sized(_));
+            let bindable = !r.ss && !r.stat && r.kind != "struct" && matches!(r.eff_arr(), ArrLen::No | ArrLen::Sized(_));
             let n = out
                 .metadata
                 .bind_groups
@@ -991,6 +991,100 @@ fn judge(case: &Case, tgt: Tgt, pipe: Option<&XPipe>, out: &rssl::CompiledPipeli
     (obs, fails)
 }
 
+// ------------------------------------------------------------------------------------------------ C05.layers: what the typer builds
+
+/// the layer chain of a type id as the real type registry holds it: `M` modifier, `A<n>` / `A?` array, `O:<Kind>` object,
+/// `X` anything else (outermost first, joined by `.`)
+fn layer_chain(m: &rssl::ir::Module, id: rssl::ir::TypeId) -> String {
+    use rssl::ir::TypeLayer;
+    let mut parts = Vec::new();
+    let mut cur = id;
+    for _ in 0..64 {
+        match m.type_registry.get_type_layer(cur) {
+            TypeLayer::Modifier(_, inner) => {
+                parts.push("M".to_string());
+                cur = inner;
+            }
+            TypeLayer::Array(inner, len) => {
+                parts.push(match len {
+                    Some(n) => format!("A{}", n),
+                    None => "A?".to_string(),
+                });
+                cur = inner;
+            }
+            TypeLayer::Object(ot) => {
+                let d = format!("{:?}", ot);
+                parts.push(format!("O:{}", d.split(|c| c == '(' || c == '<').next().unwrap_or("")));
+                break;
+            }
+            _ => {
+                parts.push("X".to_string());
+                break;
+            }
+        }
+    }
+    parts.join(".")
+}
+
+/// C05.layers: the resource declarations of the request alone, through the real preprocess + parse + type_check; the
+/// observation lists the layer chain of every resource global.  Oracle (the hypothesis of `descriptor_kind_count_from_layers`):
+/// no modifier layer directly around a modifier layer.
+fn run_layers(case: &Case, out: &mut Out, hist: &mut Hist) {
+    let reduced = Case { nstatics: 0, layout: 0, inits: vec![], res: case.res.clone(), helpers: vec![], entries: vec![], pipes: vec![] };
+    let req = format!("C05.layers\t-\t-\t{}", reduced.encode());
+    let src = reduced.render();
+    hist.add("stream=layers");
+    let r = guard(|| {
+        let mut sm = rssl::text::SourceManager::new();
+        let mut inc = MemFiles(vec![("main.rssl".to_string(), src.clone())]);
+        let tokens = rssl::preprocess::preprocess("main.rssl", &mut sm, &mut inc, &[]).map_err(|_| "preprocess".to_string())?;
+        let tokens = rssl::preprocess::prepare_tokens(&tokens);
+        let ast = rssl::parser::parse(&tokens).map_err(|_| "parse".to_string())?;
+        rssl::typer::type_check(&ast).map_err(|e| format!("{:?}", e.0).chars().take_while(|c| c.is_alphanumeric()).collect::<String>())
+    });
+    let module = match r {
+        Ok(Ok(m)) => m,
+        Ok(Err(e)) => {
+            out.case(&req, &format!("rejected:{}", e), "SKIP:front end rejects the declarations");
+            return;
+        }
+        Err(p) => {
+            out.case(&req, &format!("panic:{}", p), "SKIP:panic (C08)");
+            return;
+        }
+    };
+    // the registry starts with the intrinsic constants and `lds_payload`; the declared resources are its tail
+    let wanted: Vec<&XRes> = reduced.res.iter().filter(|r| r.kind != "cbuffer").collect();
+    let all: Vec<&rssl::ir::GlobalVariable> = module.global_registry.iter().collect();
+    let globals: Vec<&rssl::ir::GlobalVariable> = all[all.len().saturating_sub(wanted.len())..].to_vec();
+    if globals.len() != wanted.len() || globals.iter().zip(wanted.iter()).any(|(g, r)| g.name.node != r.name) {
+        let names: Vec<&str> = globals.iter().map(|g| g.name.node.as_str()).collect();
+        out.case(&req, &format!("globals-not-attributable:{}", names.join(",")), "SKIP:registry order differs from declaration order");
+        return;
+    }
+    let mut parts = Vec::new();
+    let mut fail: Option<String> = None;
+    for (g, r) in globals.iter().zip(wanted.iter()) {
+        let chain = layer_chain(&module, g.type_id);
+        hist.add(&format!("chain={}", chain.split(':').next().unwrap_or("")));
+        if chain.contains("M.M") && fail.is_none() {
+            fail = Some(format!("modifier-on-modifier `{}` has the chain {}", r.name, chain));
+        }
+        // (the implicit const of an extern global sits under the declarator's array layers: compared with the model, which
+        // builds the chain the same way; the theorems do not need it)
+        let under_arrays: Vec<&str> = chain.split('.').skip_while(|l| l.starts_with('A')).collect();
+        if !r.stat && under_arrays.first() != Some(&"M") {
+            hist.add("chain-extern-without-modifier");
+        }
+        parts.push(format!("{}={}", r.name, chain));
+    }
+    let oracle = match fail {
+        Some(f) => format!("FAIL:{}", f),
+        None => "ok".to_string(),
+    };
+    out.case(&req, &format!("L[{}]", parts.join(";")), &oracle);
+}
+
 fn parse_mode(s: &str) -> Option<Mode> {
     if s == "all" {
         Some(Mode::All)
@@ -1025,10 +1119,26 @@ fn run_case(case: &Case, tgt: Tgt, mode: &Mode, out: &mut Out, hist: &mut Hist) 
     if !case.inits.is_empty() { hist.add("variant=global-initialisers"); }
     for r in &case.res {
         hist.add(&format!("kind={}", r.kind));
-        match r.arr {
+        match r.eff_arr() {
             ArrLen::Unsized => hist.add("variant=unsized-array"),
             ArrLen::Nested(..) => hist.add("variant=nested-array"),
             _ => {}
+        }
+        if !r.spell.is_plain() {
+            hist.add("variant=type-spelling");
+            if r.spell.ns { hist.add("spelling=typedef-in-namespace"); }
+            if r.spell.param_td { hist.add("spelling=template-argument-typedef"); }
+            if r.spell.const_kw { hist.add("spelling=const-keyword"); }
+            if r.spell.extern_kw { hist.add("spelling=extern-keyword"); }
+            if r.spell.steps.len() >= 2 { hist.add("spelling=typedef-of-typedef"); }
+            if r.spell.steps.iter().any(|s| s.is_const) { hist.add("spelling=const-typedef"); }
+            match (r.spell.typedef_dims().len(), r.arr) {
+                (0, ArrLen::No) => hist.add("spelling=typedef-of-object"),
+                (0, _) => hist.add("spelling=array-of-typedef"),
+                (1, ArrLen::No) => hist.add("spelling=typedef-of-array"),
+                (_, ArrLen::No) => hist.add("spelling=typedef-of-array-of-typedef-array"),
+                _ => hist.add("spelling=array-of-typedef-array"),
+            }
         }
         if r.stat { hist.add("variant=static-object"); }
         if r.bl { hist.add("variant=bindless"); }
@@ -1224,9 +1334,47 @@ fn mutate(case: &mut Case, rng: &mut Rng, hist: &mut Hist) {
             hist.add("variant=non-resource-object-global");
         }
     }
+    // how the type is spelled: typedef of the object type, of an array of it, of a typedef, const on the typedef or on
+    // the global, typedefs inside a namespace, template argument through a typedef, `extern` written out
+    for r in case.res.iter_mut() {
+        if r.kind == "cbuffer" || !rng.chance(1, 3) {
+            continue;
+        }
+        let mut sp = Spelling::default();
+        let can_dim = !r.ss && r.kind != "struct" && r.kind != "RayDesc";
+        // a second array dimension only where the generator makes 2-D arrays anyway (recorded finding; Metal refuses
+        // the pipeline when an entry point reaches it)
+        let mut dims_left = if !can_dim {
+            0
+        } else if r.arr == ArrLen::No {
+            if r.kind.starts_with("Texture2D") && !r.bl && !r.stat && rng.chance(1, 8) { 2 } else { 1 }
+        } else if r.arr != ArrLen::Unsized && !matches!(r.arr, ArrLen::Nested(..)) && r.kind.starts_with("Texture2D") && !r.bl && !r.stat && rng.chance(1, 8) {
+            1
+        } else {
+            0
+        };
+        for _ in 0..rng.below(4) {
+            let is_const = rng.chance(1, 3);
+            let dim = if dims_left > 0 && rng.chance(1, 2) {
+                dims_left -= 1;
+                Some(1 + rng.below(3) as u32)
+            } else {
+                None
+            };
+            sp.steps.push(TdStep { is_const, dim });
+        }
+        sp.param_td = type_of_kind(&r.kind).is_some_and(|t| t.ends_with('>')) && rng.chance(1, 4);
+        sp.ns = sp.has_typedef() && rng.chance(1, 4);
+        sp.const_kw = rng.chance(1, 5);
+        sp.extern_kw = !r.stat && rng.chance(1, 6);
+        // a bindless table needs an array somewhere: keep the flag only when one is left
+        if !sp.is_plain() {
+            r.spell = sp;
+        }
+    }
     // how the bind group is written, explicit language-level indices, namespaces, sampler property sets
     for r in case.res.iter_mut() {
-        let annotatable = r.kind != "struct" && r.kind != "RayDesc" && !matches!(r.arr, ArrLen::Nested(..));
+        let annotatable = r.kind != "struct" && r.kind != "RayDesc" && !matches!(r.arr, ArrLen::Nested(..)) && r.spell.typedef_dims().is_empty();
         if r.group.is_some() && rng.chance(1, 2) {
             r.gspell = *rng.pick(&[GSpell::Reg, GSpell::Vk, GSpell::Over]);
             // vk::binding carries an index, which a static sampler must not have
@@ -1246,6 +1394,45 @@ fn mutate(case: &mut Case, rng: &mut Rng, hist: &mut Hist) {
         if r.ss && rng.chance(1, 2) {
             r.sprops = 1 + rng.below(200) as u32;
         }
+    }
+    // a declaration with several declarators: `T a.., b..;` — a clone of a resource joins its declaration; dimensions,
+    // register annotation (index, and with the register spelling the space: an earlier declarator may carry a space the
+    // later one does not) and static sampler are per declarator, everything else is shared
+    let mut i = 0;
+    while i < case.res.len() {
+        let h = case.res[i].clone();
+        if h.kind != "cbuffer" && !h.ns && !h.joined && case.res.len() < 10 && rng.chance(1, 8) {
+            let mut j = h.clone();
+            j.name = format!("{}j", h.name);
+            j.joined = true;
+            j.ss = false;
+            j.sprops = 0;
+            let annotatable = h.kind != "struct" && h.kind != "RayDesc" && h.spell.typedef_dims().is_empty();
+            j.reg_index = if annotatable && !h.ss && rng.chance(1, 3) { Some(rng.below(12) as u32) } else { None };
+            if h.gspell == GSpell::Reg && rng.chance(1, 2) {
+                j.group = None;
+            }
+            if !h.ss && h.kind != "struct" && h.kind != "RayDesc" && !matches!(h.eff_arr(), ArrLen::Unsized | ArrLen::Nested(..)) && h.spell.typedef_dims().is_empty() {
+                j.arr = if h.bl || rng.chance(1, 2) { ArrLen::Sized(1 + rng.below(3) as u32) } else { ArrLen::No };
+            }
+            if j.joins(&h) {
+                case.res.insert(i + 1, j);
+                for f in case.helpers.iter_mut().chain(case.entries.iter_mut()) {
+                    let mut extra = Vec::new();
+                    for u in f.uses.iter_mut() {
+                        if u.0 > i {
+                            u.0 += 1;
+                        } else if u.0 == i && rng.chance(1, 2) {
+                            extra.push((i + 1, ' '));
+                        }
+                    }
+                    f.uses.extend(extra);
+                }
+                hist.add("variant=several-declarators");
+                i += 1;
+            }
+        }
+        i += 1;
     }
     // statement shapes around resource mentions
     for f in case.helpers.iter_mut().chain(case.entries.iter_mut()) {
@@ -1402,6 +1589,13 @@ pub fn run(args: &Args, out: &mut Out) {
     if let Some(lines) = args.request_lines() {
         for line in lines {
             let f: Vec<&str> = line.split('\t').collect();
+            if f.len() == 8 && f[0] == "C05.layers" {
+                match Case::decode(&f[3..]) {
+                    Some(case) => run_layers(&case, out, &mut hist),
+                    None => out.case(&line, "bad-request", "SKIP:bad request"),
+                }
+                continue;
+            }
             if f.len() != 8 || f[0] != "C05.meta" {
                 continue;
             }
@@ -1442,6 +1636,8 @@ pub fn run(args: &Args, out: &mut Out) {
             }
             run_case(&case, tgt, &Mode::NoPipeline, out, &mut hist);
         }
+        // what the typer builds for the declared types (target independent)
+        run_layers(&case, out, &mut hist);
     }
     // name sweep: every name the target languages reserve, as an entry point and as a resource name
     // (most are rejected by the front end: those cases are skipped; the accepted ones must keep metadata and source in step)
